@@ -56,6 +56,42 @@ def run_c10(tier):
         replay_strainsvec(res, scen, "", "C10")
         replay_strainsvec(res, scen, "raw_strains", "C10")
         os.remove(scen)
+    # the taiko colour structure (mono streaks / alternating patterns / repeating hit patterns; Rc + Weak without `sync`,
+    # Arc + RwLock with it): TaikoColour.tla predicts the index / length / repetition-interval rows of every object for every
+    # hit-type sequence up to the bound; the preprocessor of the default AND of the sync build must assign exactly those
+    pid = os.getpid()
+    tscen = os.path.join(common.OUT, "taikocolour_%s_%d.ndjson" % (tier, pid))
+    with open(tscen, "w") as tf:
+        for (maxlen, types) in ([(7, '{"Center", "Rim", "NonHit"}'), (11, '{"Center", "Rim"}')] if tier == "quick"
+                                else [(10, '{"Center", "Rim", "NonHit"}'), (16, '{"Center", "Rim"}')]):
+            cfgp = os.path.join(common.OUT, "MC_TaikoColour_%d_%s_%d.cfg" % (maxlen, tier, pid))
+            with open(cfgp, "w") as f:
+                f.write("CONSTANTS\n  MaxLen = %d\n  Types = %s\nINIT Init\nNEXT Next\nINVARIANT WellFormed\nINVARIANT Printer\nCHECK_DEADLOCK FALSE\n" % (maxlen, types))
+            r = common.run_tlc("MC_TaikoColour", cfgp, workers=4 if tier == "quick" else 12, timeout=7200, name="MC_TaikoColour_%d_%s" % (maxlen, tier))
+            res.add_tlc(r)
+            os.remove(cfgp)
+            if not r["ok"]:
+                res.violation("TLC: the taiko colour grouping violates %s" % (r["violated"] or "a property"), {"kind": "tlc", "log_tail": common.tail_nonreplay(r["text"], 60)})
+                continue
+            part = tscen + ".part"
+            common.extract_replay(r["log"], part)
+            os.remove(r["log"])
+            tf.write(open(part).read())
+            os.remove(part)
+    for fs in ("", "sync"):
+        binp = common.build_harness(fs)
+        outp = tscen + ".%s.json" % (fs or "default")
+        p = common.run_harness(binp, ["taikocolour-replay", tscen, outp], timeout=7200)
+        log("[%s] %s" % (fs or "default", p.stdout.strip().splitlines()[-1]))
+        out = json.load(open(outp))
+        os.remove(outp)
+        if out["machinery"]:
+            raise common.ToolError("taikocolour-replay could not build its maps: %s" % out["records"][:2])
+        res.cov["traces_validated_against_impl"] += out["scenarios"]
+        for rec in out["records"][:6]:
+            res.violation("taiko colour structure [%s build] for %s: expected %s observed %s" % (fs or "default", rec["types"], rec["expected"][:400], rec["observed"][:400]),
+                          {"kind": "taiko-colour", "features": fs, "record": rec})
+    os.remove(tscen)
     # end to end: the same seeded scenario list in all four feature builds
     dumps = {}
     for fs in FEATURE_SETS:
